@@ -138,6 +138,30 @@ def e1_merge_term_loop(ctx):
     devs(ctx, "MergeTermLoop", ["FoldedCondition", "OneHitLeq", "CardCountsDropped"], "AllRight", workers=8)
 
 
+def e1_ctx_reader(ctx):
+    """E1: the scratch context's meta reader across visits (early stops, documents without stored values)."""
+    tlc_mc(ctx, "CtxReader", "MC_CtxReader.cfg", workers=4)
+    devs(ctx, "CtxReader", ["ResetOnlyNonEmptyMeta", "NoResetAfterFullRead"], "OwnValues")
+
+
+def e2_ctx_reader(ctx, num):
+    import lift
+    behs = tlc_emit(ctx, "CtxReader", "Gen_CtxReader.cfg", os.path.join(ctx.work, "beh-ctx.json"),
+                    extra=["-simulate", "num=%d" % num, "-depth", "10", "-seed", str(ctx.seed)])
+    behs = lift.dedupe(behs)[:num]
+    run_scenarios(ctx, [lift.lift_ctxreader(b, i) for i, b in enumerate(behs)], "e2ctx", perfile=20, shards=4,
+                  env_extra={"VERIF_INLINE": "1"})
+
+
+def e2_merge_term_loop(ctx, num):
+    """E2: random MergeTermLoop configurations (empty term, deletions, 1-hit candidates) on the real merger."""
+    import lift
+    behs = tlc_emit(ctx, "MergeTermLoop", "Gen_MergeTermLoop.cfg", os.path.join(ctx.work, "beh-termloop.json"),
+                    extra=["-simulate", "num=%d" % (2 * num), "-depth", "16", "-seed", str(ctx.seed)])
+    behs = lift.dedupe(behs)[:num]
+    run_scenarios(ctx, [lift.lift_termloop(b, i) for i, b in enumerate(behs)], "e2termloop", perfile=10, shards=4)
+
+
 def e1_load_layout(ctx):
     tlc_mc(ctx, "LoadLayout", "MC_LoadLayout.cfg", workers=4)
     tlc_mc(ctx, "LoadLayout", "MC_LoadLayout_dev_FieldsLookAhead.cfg", workers=4, expect_violation="LookAheadInsideData")
@@ -262,6 +286,7 @@ def plan_C02(ctx):
     e1_enumerator(ctx)
     e1_merge_algo(ctx)
     e1_merge_term_loop(ctx)
+    e2_merge_term_loop(ctx, n_of(ctx, 40, 600))
     e1_chunking(ctx)
     e1_loc_stream(ctx)
     e2_loc_stream(ctx, n_of(ctx, 40, 600))
@@ -275,6 +300,7 @@ def plan_C02(ctx):
     run_family(ctx, "mass_delete", n_of(ctx, 5, 60), perfile=1)                   # thousands of deletions
     run_family(ctx, "card_boundary", n_of(ctx, 6, 24), perfile=1)                 # cardinalities on the chunk-size steps, 1-hit inputs
     run_family(ctx, "huge", n_of(ctx, 2, 8), perfile=1, seed_off=1)
+    run_family(ctx, "fault_then_merge", n_of(ctx, 20, 300), perfile=10, seed_off=2)
     canary(ctx)
 
 
@@ -298,6 +324,7 @@ def plan_C04(ctx):
     run_family(ctx, "merge_chain", n_of(ctx, 20, 300), perfile=10, seed_off=3)
     run_family(ctx, "huge", n_of(ctx, 2, 8), perfile=1, seed_off=2)
     run_family(ctx, "field_limit", n_of(ctx, 1, 4), perfile=1, seed_off=1)     # 65535 fields: the 16-bit field id limit
+    run_family(ctx, "conc_write", n_of(ctx, 16, 240), perfile=4)               # writers side by side (one-byte merge buffers, slow destinations)
     canary(ctx)
 
 
@@ -305,6 +332,8 @@ def plan_C06(ctx):
     e1_stored_codec(ctx)
     e1_stored_read(ctx)
     e2_stored_read(ctx, n_of(ctx, 32, 400))
+    e1_ctx_reader(ctx)
+    e2_ctx_reader(ctx, n_of(ctx, 40, 600))
     run_family(ctx, "stored_shapes", n_of(ctx, 200, 4000), perfile=n_of(ctx, 20, 40))
     run_family(ctx, "stored_sweep", n_of(ctx, 80, 400), perfile=5)
     run_family(ctx, "extremes", n_of(ctx, 3, 36), perfile=1, seed_off=5)         # stored values of tens of kilobytes
@@ -324,6 +353,8 @@ def plan_C07(ctx):
 def plan_C08(ctx):
     e1_reuse(ctx)
     e1_merge_term_loop(ctx)
+    e2_merge_term_loop(ctx, n_of(ctx, 40, 600))
+    run_family(ctx, "fault_then_merge", n_of(ctx, 30, 500), perfile=10)     # a healthy merge after abandoned ones
     run_family(ctx, "dict_ranges", n_of(ctx, 250, 5000), perfile=n_of(ctx, 20, 40))
     run_family(ctx, "dict_interleave", n_of(ctx, 120, 2500), perfile=n_of(ctx, 20, 40))
     run_family(ctx, "merge_obs", n_of(ctx, 100, 1500), perfile=20, seed_off=6)
@@ -365,6 +396,8 @@ def plan_C09(ctx):
     run_family(ctx, "conc_sched", n_of(ctx, 60, 1500), perfile=n_of(ctx, 10, 30))
     run_family(ctx, "conc_free", n_of(ctx, 40, 800), perfile=n_of(ctx, 8, 20))
     run_family(ctx, "conc_persist", n_of(ctx, 10, 200), perfile=10, seed_off=1)
+    run_family(ctx, "conc_write", n_of(ctx, 8, 160), perfile=4, seed_off=2)
+    run_family(ctx, "iter_share", n_of(ctx, 40, 600), perfile=20, seed_off=2)    # interleaved readers on one goroutine are schedules too
     race_pass(ctx, "conc_free", n_of(ctx, 24, 300), "C09")
     canary(ctx)
 
@@ -382,6 +415,8 @@ def plan_C10(ctx):
 def plan_C11(ctx):
     e1_writer_crc(ctx)
     run_family(ctx, "conc_persist", n_of(ctx, 20, 300), perfile=10)       # overlapping WriteTo calls on one segment object
+    run_family(ctx, "conc_write", n_of(ctx, 12, 200), perfile=6, seed_off=1)
+    run_family(ctx, "faults_w", n_of(ctx, 2, 40), perfile=1, seed_off=3)     # the count returned = the bytes the destination received
     run_family(ctx, "roundtrip", n_of(ctx, 150, 3000), perfile=n_of(ctx, 10, 30), seed_off=7)
     run_family(ctx, "merge_obs", n_of(ctx, 150, 3000), perfile=20, seed_off=8)
     canary(ctx)
@@ -394,6 +429,8 @@ def plan_C12(ctx):
 
 
 def plan_C13(ctx):
+    e1_ctx_reader(ctx)
+    e2_ctx_reader(ctx, n_of(ctx, 40, 600))
     e1_reuse(ctx)
     e1_gen_api(ctx)
     e2_gen_api(ctx, n_of(ctx, 60, 1200))
@@ -412,6 +449,7 @@ def plan_C14(ctx):
     run_family(ctx, "wide_repeat", n_of(ctx, 12, 200), perfile=4, env_extra={"VERIF_INLINE": "1"})   # wide schema, sparse stored fields
     run_family(ctx, "pool_vocab", n_of(ctx, 4, 24), perfile=1, env_extra={"VERIF_INLINE": "1"})     # > 10 000 distinct terms vs small vocabularies
     run_family(ctx, "conc_build", n_of(ctx, 40, 600), perfile=n_of(ctx, 10, 20))
+    run_family(ctx, "conc_write", n_of(ctx, 8, 160), perfile=4, seed_off=3)
     race_pass(ctx, "conc_build", n_of(ctx, 16, 200), "C14")
     require_cov(ctx, "pooled_builds")
 
@@ -422,6 +460,7 @@ def plan_C15(ctx):
     require_cov(ctx, "tag:api_merge_with_bitmap", "tag:api_prealloc", "tag:api_stats_add")
     run_family(ctx, "immut", n_of(ctx, 80, 1500), perfile=n_of(ctx, 8, 20))
     run_family(ctx, "dv_merge_order", n_of(ctx, 8, 80), perfile=2)                  # inputs read again after merges (small before large)
+    run_family(ctx, "fault_then_merge", n_of(ctx, 30, 500), perfile=10, seed_off=1)  # inputs read again after abandoned merges
     canary(ctx)
 
 
@@ -441,6 +480,7 @@ def plan_C17(ctx):
     e1_algebra(ctx)
     e1_merge_algo(ctx)
     e1_merge_term_loop(ctx)
+    e2_loc_stream(ctx, n_of(ctx, 40, 600))      # identity merges of 131-field segments with locations naming other fields
     run_family(ctx, "assoc", n_of(ctx, 120, 2500), perfile=n_of(ctx, 10, 20))
     run_family(ctx, "twin_merge", n_of(ctx, 60, 1200), perfile=10)
     run_family(ctx, "card_boundary", n_of(ctx, 6, 24), perfile=1, seed_off=2)
@@ -459,6 +499,8 @@ def plan_C19(ctx):
     e2_fst_cache(ctx, n_of(ctx, 40, 400))
     run_family(ctx, "fault_read", n_of(ctx, 150, 3000), perfile=n_of(ctx, 15, 40))
     run_family(ctx, "fault_read_big", n_of(ctx, 8, 120), perfile=1)
+    run_family(ctx, "fault_transient", n_of(ctx, 48, 480), perfile=6)                               # one failing read, then healthy storage
+    run_family(ctx, "fault_transient", n_of(ctx, 24, 240), perfile=6, seed_off=1, env_extra={"VERIF_INLINE": "1"})   # same goroutine: same pooled scratch
     require_cov(ctx, "tag:fst_failed")
 
 
